@@ -694,6 +694,81 @@ func runC03(c *fw.Ctx) {
 		}
 	}
 	c.Family("invalid-catalogue")
+
+	// ---- integer boundaries: lengths, indices and table sizes around 2^N-1 and 2^N-1+128 ----
+	big := 65536
+	for _, n := range []int{0, 1, 2, 65, 66, 67, 129, 130, 131, 193, 194, 195} {
+		t := ref.NewTable()
+		t.Max, t.SettingsMax = big, big
+		var access [][]byte
+		var blk []byte
+		for i := 0; i < n; i++ {
+			blk = ref.EncodeField(blk, t, ref.Field{Name: fmt.Sprintf("n%d", i), Value: "v"}, ref.EncChoice{Rep: ref.RepIncremental})
+			if len(blk) > 200 || i == n-1 {
+				access = append(access, blk)
+				blk = nil
+			}
+		}
+		ts := tstate{big, access}
+		var probes []hpBlock
+		if n > 0 {
+			for _, rep := range []ref.Rep{ref.RepIndexed, ref.RepIncremental, ref.RepWithout, ref.RepNever} {
+				v := "v"
+				if rep != ref.RepIndexed {
+					v = "other"
+				}
+				probes = append(probes, hpBlock{Fields: []fieldChoice{{ref.Field{Name: "n0", Value: v, Sensitive: rep == ref.RepNever}, ref.EncChoice{Rep: rep, NameIndex: true}}}})
+				if n > 1 {
+					probes = append(probes, hpBlock{Fields: []fieldChoice{{ref.Field{Name: "n1", Value: v, Sensitive: rep == ref.RepNever}, ref.EncChoice{Rep: rep, NameIndex: true}}}})
+				}
+			}
+		}
+		for _, l := range []int{126, 127, 128, 129, 254, 255, 256, 383, 16510, 16511, 16512} {
+			for _, h := range []bool{false, true} {
+				val := valOfLen(l)
+				if h {
+					val = strings.Repeat("0", l*8/5)
+				}
+				if n <= 2 {
+					probes = append(probes,
+						hpBlock{Fields: []fieldChoice{{ref.Field{Name: "x", Value: val}, ref.EncChoice{Rep: ref.RepIncremental, HuffValue: h}}, {ref.Field{Name: "y", Value: "after"}, ref.EncChoice{Rep: ref.RepWithout}}}},
+						hpBlock{Fields: []fieldChoice{{ref.Field{Name: val, Value: "v"}, ref.EncChoice{Rep: ref.RepWithout, HuffName: h}}, {ref.Field{Name: "y", Value: "after"}, ref.EncChoice{Rep: ref.RepWithout}}}})
+				}
+			}
+		}
+		if n <= 2 {
+			for _, sz := range []int{29, 30, 31, 32, 33, 158, 159, 160, 286, 287, 4095, 4096, 16414, 16415, 16416} {
+				probes = append(probes, hpBlock{SizeUpdates: []int{sz}, Fields: []fieldChoice{{ref.Field{Name: "y", Value: "after"}, ref.EncChoice{Rep: ref.RepIncremental}}}})
+			}
+		}
+		for _, pb := range probes {
+			if item++; !c.Mine(item) {
+				continue
+			}
+			tt := ref.NewTable()
+			tt.Max, tt.SettingsMax = big, big
+			for _, a := range access {
+				ref.DecodeBlock(tt, a)
+			}
+			enc := pb.encode(tt)
+			xnetCheck(c, big, access, enc)
+			for _, mode := range modes {
+				cs := c03Case{Limit: big, Access: hexes(access), Block: hex.EncodeToString(enc), Mode: mode, Desc: "int-boundary: " + pb.String()}
+				c.Eval(nt(true, append([]byte(fmt.Sprint("ib", n, mode)), enc...)))
+				c.AddTransitions(1)
+				b := pb
+				if v := c03Eval(cs, &b); v != nil {
+					v.Shape = "int-boundary " + v.Shape
+					c.Violate(*v)
+					c.Outcome(v.Rule)
+				} else {
+					c.Outcome("agree")
+				}
+			}
+		}
+		_ = ts
+	}
+	c.Family("int-boundaries")
 	c.AddTraces(c.Evals)
 }
 
